@@ -360,7 +360,16 @@ class ConstantFieldFormat(AbstractFieldFormat):
         if not self.is_allowed_to_be_empty and has_empty_rule:
             raise errors.InterfaceError("field must be marked as empty to describe a constant empty value")
         try:
-            self.length.validate("rule of constant field %s" % _compat.text_repr(self.field_name), len(self._constant))
+            if (self.data_format.format == data.FORMAT_FIXED) and (self.length.upper_limit is not None):
+                # With fixed data, the length is the width of the field, which shorter values are padded to.
+                self.length.validate(
+                    "rule of constant field %s" % _compat.text_repr(self.field_name),
+                    max(len(self._constant), self.length.upper_limit),
+                )
+            else:
+                self.length.validate(
+                    "rule of constant field %s" % _compat.text_repr(self.field_name), len(self._constant)
+                )
         except errors.RangeValueError:
             raise errors.InterfaceError(
                 "length is %s but must be %d to match constant %s"
